@@ -7,42 +7,25 @@ import PgVerif.Model.Cluster
 namespace PgVerif.Model.ClusterHyp
 open PgVerif PgVerif.Model
 
-/-- the byte the tool takes for attalign (finding A03): high byte of attcacheoff (−1) on the 12–15 layouts, of
-atttypmod on the 16 layout -/
-def toolAlignNat (l : Spec.Layout) (a : Spec.AttrRow) : Nat :=
-  (match l with
-   | .v16 => ofSigned 32 a.typmod
-   | _ => ofSigned 32 (-1)) / 256 / 256 / 256 % 256
-
 /-- attnums i+1, i+2, … without gaps -/
 def denseB : Nat → List Spec.AttrRow → Bool
   | _, [] => true
   | i, a :: as => a.num == (i : Int) + 1 && denseB (i + 1) as
 
-/-- the heap of relation `r` is readable by the tool: dense attnums, the tool's alignment is the true one (not A03),
-a table without columns has no live row (not A01z) -/
-def relReadableB (l : Spec.Layout) (d : Spec.DbContent) (r : Spec.ClassRow) : Bool :=
-  let attrs := Spec.userAttrs d.att r.oid
-  denseB 0 attrs &&
-  attrs.all (fun a => colAlign ⟨a.name, a.typid, a.len, a.num, toolAlignNat l a⟩ == a.align) &&
-  (!attrs.isEmpty ||
-    match d.heaps.lookup r.filenode with
-    | some pages => (Spec.liveRows pages []).isEmpty
-    | none => true)
+/-- the heap of relation `r` is readable with the catalog's columns: dense attnums -/
+def relReadableB (d : Spec.DbContent) (r : Spec.ClassRow) : Bool :=
+  denseB 0 (Spec.userAttrs d.att r.oid)
 
-def firstFiveB (live : List Spec.AttrRow) : Bool :=
-  decide (live.length ≥ 5) && ((live.take 5).zipIdx.all fun (a, i) => a.num == (i : Int) + 1)
+/-- attstorage is 'p', 'e', 'm' or 'x' -/
+def storageOKB (a : Spec.AttrRow) : Bool := a.storage == 112 || a.storage == 101 || a.storage == 109 || a.storage == 120
 
-/-- the tool's choice of pg_attribute schema is the right one (not A04) -/
+/-- the version hint names the layout, or there is none and every live attstorage is a legal character (what the
+automatic choice of the layout relies on) -/
 def schemaOKB (l : Spec.Layout) (att : Spec.HeapOf Spec.AttrRow) (ver : Nat) : Bool :=
   (decide (16 ≤ ver) && l == .v16) ||
-  (decide (12 ≤ ver) && decide (ver < 16) && l != .v16) ||
-  (decide (ver < 12) &&
-    ((l == .v16 && firstFiveB att.live) ||
-     (l != .v16 &&
-       match att.live.head? with
-       | some a => decide (-65536 ≤ a.stattarget) && decide (a.stattarget < 65536)
-       | none => true)))
+  (decide (14 ≤ ver) && decide (ver < 16) && l == .v14) ||
+  (decide (12 ≤ ver) && decide (ver < 14) && l == .v12) ||
+  (decide (ver < 12) && att.live.all storageOKB)
 
 def dumpableB (l : Spec.Layout) (d : Spec.DbContent) (o : Spec.Options) : Bool :=
   schemaOKB l d.att o.pgVersion &&
@@ -50,7 +33,7 @@ def dumpableB (l : Spec.Layout) (d : Spec.DbContent) (o : Spec.Options) : Bool :
     !Spec.selectedRel o r ||
       (r.filenode != 1259 && r.filenode != 1249 && (d.raws.lookup r.filenode).isNone &&
        (match d.heaps.lookup r.filenode with
-        | some pages => o.listOnly || pages.isEmpty || relReadableB l d r
+        | some pages => o.listOnly || pages.isEmpty || relReadableB d r
         | none => true))
 
 /-- every database that `o` selects and that has a directory is dumpable -/
